@@ -355,8 +355,12 @@ def run(ck):
         if okc and chain_ok and last_ok:
             ck.discharged += 6
     crc_call_sites(ck, 'C12.R5')
+    # ---- R6: "... and the value the decapsulator recomputes, with an empty label after a re-use first fragment": the receiver
+    # rules of C03 (CRC arguments at the recomputation, equality with the trailer established before delivery) evaluated here
+    from rules import c03
+    c03.rules(ck, P='C12.R6')
     ck.assumptions += ['Iterator::fold over slice::Iter is a left fold in slice order (std documentation)',
-                       'the decapsulator side of the argument agreement (decap_end) is rule C03.R3; the trailer position is rules C06.R4 / C03.R3']
+                       'the trailer position on the sender side is rule C06.R4']
     return ck.finish(
         level='proof',
         explanation=('(1) The 256 words of CRC_TAB, read from the constant the compiler evaluated, equal the table generated by the checker from the '
